@@ -172,7 +172,21 @@ func c05Lockset(c *Ctx) {
 			}
 		})
 		good := nLock == 1 && nDefer == 1 && nUnlockPlain == 0 && firstLock != nil && firstLock.Block() == f.Blocks[0]
-		c.check(good, rule, name+"/one-critical-section", w.pos(f.Pos()), "locks once at entry, unlocks by defer", fmt.Sprintf("%s does not run as one critical section (Lock sites %d, deferred Unlock %d, explicit Unlock %d): list, map, cursor and notification can be observed out of step by a racing dispatch", name, nLock, nDefer, nUnlockPlain))
+		if !good && nLock == 1 && nDefer == 0 && nUnlockPlain >= 1 && firstLock != nil && firstLock.Block() == f.Blocks[0] {
+			// explicit unlocking: exactly one Unlock on every path from the Lock to a return (the lockset rule
+			// already requires every access to the fields to happen while the lock is held)
+			isUnlock := func(in ssa.Instruction) bool {
+				cs, ok := in.(ssa.CallInstruction)
+				if !ok {
+					return false
+				}
+				cls, acq, ok := w.lockClass(cs)
+				return ok && cls == rrLock && !acq
+			}
+			mn, mx, inf := countSites(at(firstLock), nil, isUnlock)
+			good = mn == 1 && mx == 1 && !inf
+		}
+		c.check(good, rule, name+"/one-critical-section", w.pos(f.Pos()), "locks once at entry, unlocks once (by defer, or explicitly on every path)", fmt.Sprintf("%s does not run as one critical section (Lock sites %d, deferred Unlock %d, explicit Unlock %d): list, map, cursor and notification can be observed out of step by a racing dispatch", name, nLock, nDefer, nUnlockPlain))
 	}
 }
 
